@@ -1,4 +1,3 @@
 SPECIFICATION Spec
 INVARIANT Done
-INVARIANT FrameCountBounded
 CHECK_DEADLOCK FALSE
